@@ -46,17 +46,28 @@ try:
         text = open(demo).read()
         pkg = re.search(r'^package (\w+)', text, re.M).group(1)
         pkgdir = {'soy': '.', 'soy_test': '.', 'pomsg': 'soymsg/pomsg', 'pomsg_test': 'soymsg/pomsg'}.get(pkg, pkg.replace('_test', ''))
+        am = {}
+        for mp0 in (f'{src}/meta{K}.json',):
+            if os.path.exists(mp0):
+                try: am = json.load(open(mp0))
+                except Exception: am = {}
+        if not am and os.path.exists(f'{src}/meta.json'):
+            try: am = json.load(open(f'{src}/meta.json')).get('agent_meta', {})
+            except Exception: am = {}
+        if am.get('demo_dir'):
+            pkgdir = am['demo_dir'].strip('/').replace('/tmp/wt3/' + ID, '').strip('/') or '.'
+        raceflag = '-race ' if am.get('demo_failure_mode') == 'race' else ''
         tests = re.findall(r'^func (Test\w+)\(', text, re.M)
         os.makedirs(os.path.join(wt, pkgdir), exist_ok=True)
         dst = os.path.join(wt, pkgdir, f'zz_demo{K}_test.go')
         shutil.copy(demo, dst)
         runre = '^(' + '|'.join(tests) + ')$'
-        rc1, o1 = sh(f"go test -vet=off -count=1 -run '{runre}' ./{pkgdir}", cwd=wt)
+        rc1, o1 = sh(f"go test {raceflag}-timeout 120s -vet=off -count=1 -run '{runre}' ./{pkgdir}", cwd=wt)
         res['demo_fails_with_change'] = rc1 != 0
         sh('git checkout -- .', cwd=wt)
         if not os.path.exists(dst):
             os.makedirs(os.path.dirname(dst), exist_ok=True); shutil.copy(demo, dst)
-        rc2, o2 = sh(f"go test -vet=off -count=1 -run '{runre}' ./{pkgdir}", cwd=wt)
+        rc2, o2 = sh(f"go test {raceflag}-timeout 120s -vet=off -count=1 -run '{runre}' ./{pkgdir}", cwd=wt)
         res['demo_passes_without_change'] = rc2 == 0
         if rc2 != 0: res['demo_clean_output'] = o2[-600:]
     else:
